@@ -1,5 +1,11 @@
 package values
 
+import "math"
+
+// maxRangeArrayLen is the largest range that is converted to an array (for a filter that takes
+// an array). A for loop iterates a range lazily and is not limited.
+const maxRangeArrayLen = 10_000_000
+
 // A Range is the range of integers from b to e inclusive.
 type Range struct {
 	b, e int
@@ -15,7 +21,12 @@ func (r Range) Len() int {
 	if r.e < r.b {
 		return 0
 	}
-	return r.e + 1 - r.b
+	// e - b + 1, computed without overflow; a range too long for an int saturates.
+	n := uint64(r.e) - uint64(r.b)
+	if n >= math.MaxInt {
+		return math.MaxInt
+	}
+	return int(n) + 1
 }
 
 // Index is in the iteration interface
@@ -23,9 +34,11 @@ func (r Range) Index(i int) any { return r.b + i }
 
 // AsArray converts the range into an array.
 func (r Range) AsArray() []any {
-	a := make([]any, 0, r.Len())
-	for i := r.b; i <= r.e; i++ {
-		a = append(a, i)
+	n := r.Len()
+	a := make([]any, 0, n)
+	// Count the items: "i <= r.e" never fails when r.e is the largest int.
+	for i := 0; i < n; i++ {
+		a = append(a, r.b+i)
 	}
 	return a
 }
